@@ -133,19 +133,25 @@ def epochs_family(ld, r, count):
                 return v
             seed = r.randint(0, 10 ** 6)
             base = ld.new({f'key{i}': i for i in range(n)} if keyed else list(range(n)))
-            shape = r.choice(['map_reshuffle', 'reshuffle_map', 'lazyapply', 'reshuffle_map_prefetch1', 'lazyapply_reshuffle', 'lazyapply_part_reshuffle', 'lazyapply_reshuffle_map'])
+            shape = r.choice(['map_reshuffle', 'reshuffle_map', 'lazyapply', 'reshuffle_map_prefetch1', 'lazyapply_reshuffle', 'lazyapply_part_reshuffle', 'lazyapply_reshuffle_map', 'tile_warn', 'selfconcat_warn', 'selfintersperse_warn', 'plain_warn'])
             sel = r.choice([exc, (exc, ValueError), Exception])
             try:
                 if shape == 'map_reshuffle': d = base.map(fn).shuffle(True, rng=np.random.RandomState(seed)).catch(sel)
                 elif shape == 'reshuffle_map': d = base.shuffle(True, rng=np.random.RandomState(seed)).map(fn).catch(sel)
                 elif shape == 'lazyapply': d = base.map(fn).apply(_Reorder(seed), lazy=True).catch(sel)
+                elif shape == 'tile_warn': d = base.tile(2).map(fn).catch(sel, warn=True)                    # (duplicate keys below, warn=True)
+                elif shape == 'selfconcat_warn': d = base.map(fn).concatenate(base.map(fn)).catch(sel, warn=True)
+                elif shape == 'selfintersperse_warn': d = base.map(fn).intersperse(base.map(fn)).catch(sel, warn=True)
+                elif shape == 'plain_warn': d = base.map(fn).catch(sel, warn=True)
                 elif shape == 'lazyapply_reshuffle': d = base.map(fn).apply(_Reshuffle(seed), lazy=True).catch(sel)
                 elif shape == 'lazyapply_part_reshuffle': d = base.map(fn).apply(_PartReshuffle(seed), lazy=True).catch(sel)
                 elif shape == 'lazyapply_reshuffle_map': d = base.apply(_Reshuffle(seed), lazy=True).map(fn).catch(sel)
                 else: d = base.shuffle(True, rng=np.random.RandomState(seed)).map(fn).prefetch(1, 2, catch_filter_exception=sel if sel is not Exception else (exc,))
                 want = sorted(set(range(n)) - badset)
+                if shape in ('tile_warn', 'selfconcat_warn', 'selfintersperse_warn'):
+                    want = sorted(want + want)
                 for epoch in range(4):
-                    use_items = keyed and epoch % 2 == 1 and not shape.startswith('lazyapply')
+                    use_items = keyed and epoch % 2 == 1 and not shape.startswith('lazyapply') and not shape.endswith('_warn')
                     got = [kv[1] for kv in d.items()] if use_items else list(d)
                     if sorted(got) != want:
                         fails.append(dict(kind='history', summary=f'{shape} over {n} examples ({"dict" if keyed else "list"} source), examples {sorted(badset)} raise {exc.__name__}, caught {sel}: '
